@@ -135,7 +135,10 @@ def program_diff():
         svc_for_calls = os.path.basename(name).split("_generated_")[1].split("_")[0] if "_generated_" in name else None
         if is_async_sample:
             acls = [c for c in ast.parse(srcs_by_file[name][1]).body if isinstance(c, ast.ClassDef) and c.name.endswith("AsyncClient")]
-            coro = {f.name for c in acls for f in c.body if isinstance(f, ast.AsyncFunctionDef)}
+            # `async def` methods, and plain methods declared to return an Awaitable (server-streaming calls)
+            coro = {f.name for c in acls for f in c.body if isinstance(f, ast.AsyncFunctionDef)} | \
+                   {f.name for c in acls for f in c.body if isinstance(f, ast.FunctionDef) and f.returns is not None
+                    and ast.unparse(f.returns).startswith("Awaitable[")}
             awaited_calls, awaited_names = set(), set()
             for node in ast.walk(fn):
                 if isinstance(node, ast.Await):
@@ -150,7 +153,7 @@ def program_diff():
                         and node.value.func.attr in coro and id(node.value) not in awaited_calls:
                     tgt = node.targets[0].id if isinstance(node.targets[0], ast.Name) else None
                     if tgt not in awaited_names:
-                        bad[f"await:{name}"] = (f"client.{node.value.func.attr} is `async def` in the emitted asyncio client; the sample "
+                        bad[f"await:{name}"] = (f"client.{node.value.func.attr} returns an awaitable in the emitted asyncio client; the sample "
                                                 f"uses its result `{tgt}` without awaiting the call")
         # one member of each oneof populated (never two)
         for var, fields_ in populated.items():
